@@ -48,8 +48,10 @@ var mutations = []string{"dup-name", "inherit-unknown", "inherit-concrete", "no-
 	"tab-cycle-1", "tab-cycle-2", "tab-cycle-3", "tab-cycle-1-leaf", "tab-cycle-2-leaf", "tab-cycle-3-leaf",
 	"tab-cycle-1-leaf2", "tab-cycle-2-leaf2", "tab-cycle-3-leaf2", "tab-cycle-1-nested", "tab-cycle-2-nested",
 	"ws-cycle-1", "ws-cycle-2", "ws-cycle-3", "ws-cycle-1-leaf", "ws-cycle-2-leaf", "ws-cycle-3-leaf", "ws-cycle-2-leaf2",
-	// accepted by the analyser, refused only by builder.Build()
-	"view-no-partition-key", "grant-all-empty-class"}
+	// accepted by the analyser, refused only by builder.Build() (before 55541a167 / 510061369)
+	"view-no-partition-key", "grant-all-empty-class",
+	// reference fields of a descriptor with a bad target (accepted before the repair of F29)
+	"desc-ref-unknown", "desc-ref-abstract", "desc-ref-wdoc"}
 
 func Mutate(r *kit.Rng, a Schema) (string, bool) {
 	start := r.Intn(len(mutations))
@@ -181,6 +183,36 @@ func apply(r *kit.Rng, a Schema, m string) bool {
 				return false
 			}
 			t.t.Inh = &QRef{Pkg: "sys", Name: wrong[root]}
+			return true
+		}
+	case "desc-ref-unknown", "desc-ref-abstract", "desc-ref-wdoc":
+		// a concrete workspace; give it a descriptor when it has none
+		for _, w := range wss {
+			if w.w.Abstract {
+				continue
+			}
+			target := QRef{Name: "NoSuchTable"}
+			switch m {
+			case "desc-ref-abstract":
+				found := false
+				for _, o := range tabs {
+					if o.w == w.w && o.t.Abstract && !o.nested {
+						target, found = QRef{Name: o.t.Name}, true
+					}
+				}
+				if !found {
+					continue
+				}
+			case "desc-ref-wdoc":
+				w.w.Items = append(w.w.Items, WsItem{Table: &Table{Name: "ZzWDoc", Inh: &QRef{Pkg: "sys", Name: "WDoc"}, Items: []TItem{}}})
+				target = QRef{Name: "ZzWDoc"}
+			}
+			d := []DescItem{}
+			if w.w.Desc != nil {
+				d = *w.w.Desc
+			}
+			d = append(d, DescItem{Ref: &RefF{Name: "zdref", Refs: []QRef{target}}})
+			w.w.Desc = &d
 			return true
 		}
 	case "nested-abstract":
@@ -347,7 +379,7 @@ func apply(r *kit.Rng, a Schema, m string) bool {
 	case "abstract-descriptor":
 		for _, w := range wss {
 			if w.w.Abstract {
-				w.w.Desc = &[]Field{}
+				w.w.Desc = &[]DescItem{}
 				return true
 			}
 		}
